@@ -1,3 +1,4 @@
+import BalmProofs.AttrBridge
 import BalmProofs.SymHyp
 import BalmProofs.JudgeSpec
 import Balm
